@@ -318,6 +318,71 @@ def rule_fin(S):
              path=missing[0] if missing and missing[0] else None)
 
 
+Y = 'yakushima::'
+
+
+def rule_gst(S):
+    """R-GST: process-wide atomics written on the fin() path start every cycle from a defined value."""
+    facts = S.facts()
+    S.rule('R-GST', 'every process-wide std::atomic (static data member / namespace-scope variable of yakushima) that a '
+                    'function reachable from fin() stores an absolute value into is also stored by a function reachable from init(): otherwise '
+                    'the next cycle starts with whatever the previous fin() left in it (the first cycle started from the '
+                    'static initialiser)')
+    atomics = {q for q, g in facts.globals.items() if (g.get('type') or '').replace('const ', '').startswith('std::atomic<')}
+
+    # functions handed to std::thread run later, concurrently: what they write is not a reset done by init()
+    thread_entries = set()
+    for g0 in facts.functions.values():
+        for n0 in g0.all_nodes():
+            if n0['k'] == 'CXXConstructExpr' and 'std::thread' in (n0.get('ty') or n0.get('ctor') or ''):
+                for x0 in g0.walk(n0):
+                    if x0['k'] == 'DeclRefExpr' and x0.get('dk') == 'func':
+                        thread_entries.add(x0.get('id'))
+
+    def writes(entry):
+        out = {}
+        reach = R.reachable_funcs(facts, entry, stop=None)
+        # re-walk without entering thread entry functions
+        seen = {}
+        st = list(entry)
+        while st:
+            g1 = st.pop()
+            if g1.fid in seen or g1.fid in thread_entries:
+                continue
+            seen[g1.fid] = g1
+            st.extend(R.callees(facts, g1))
+        reach = seen
+        for g in reach.values():
+            for n in g.all_nodes():
+                tgt = None
+                # absolute writes only: a counter that is incremented and decremented in pairs (check_room /
+                # return_room) returns to its initial value by itself and is not this rule's business
+                if n['k'] == 'CXXMemberCallExpr' and n.get('cn') in ('store', 'exchange') and (n.get('mcls') or '').startswith('std::'):
+                    tgt = R.global_ref(g, call_recv(g, n))
+                elif n['k'] == 'CXXOperatorCallExpr' and n.get('cn') == 'operator=':
+                    a = [g.node(x) for x in n.get('args', [])]
+                    tgt = R.global_ref(g, a[0]) if a else None
+                elif n['k'] == 'AtomicExpr' and 'store' in n.get('aop', ''):
+                    c = g.ch(n)
+                    tgt = R.global_ref(g, c[0]) if c else None
+                if tgt in atomics:
+                    out.setdefault(tgt, (g.qname, short_loc(n)))
+        return out
+
+    fin = [f for f in facts.by_qname(Y + 'fin') if not f.cls]
+    ini = [f for f in facts.by_qname(Y + 'init') if not f.cls]
+    if not fin or not ini:
+        raise AnalysisBroken('R-GST: yakushima::init / yakushima::fin not found')
+    wf, wi = writes(fin), writes(ini)
+    S.count('R-GST: process-wide atomics', len(atomics))
+    S.require('R-GST', 'process-wide atomics written on the fin() path', len(wf), 2)
+    for q in sorted(wf):
+        S.ob('R-GST', Y + 'init', 'reset of ' + q, q in wi,
+             'written on the init() path too' if q in wi else
+             '%s is written by %s (reachable from fin) and nothing reachable from init() resets it: every cycle after the '
+             'first starts with the value the previous fin() left' % (q, wf[q][0]), loc=wf[q][1])
+
+
 def run(S):
     S.undecided = ['that the epoch really advances and memory is really reclaimed in later cycles (timing)',
                    'behaviour with sessions left open across fin()',
@@ -329,3 +394,4 @@ def run(S):
     rule_tbl(S)
     rule_emp(S)
     rule_fin(S)
+    rule_gst(S)
